@@ -268,10 +268,11 @@ func c01RoleArgs(u *c05Universe, op c05Op) (int, []int) {
 
 // c01ArgScript: build one unusual argument x on the stack, then System.Contract.Call h.take(x) — or
 // h.relay(h, x), which passes x on through another System.Contract.Call — and drop the result.
-//  0 iterator from NeoToken.getAllCandidates   1 iterator from Management.getContractHashes   2 Pointer
-//  3 array containing itself   4 map containing itself   5 array nested `size` deep (default 150)
-//  6 Buffer of stackitem.MaxSize - size bytes (its serialisation is just under / over MaxSize)   7 small Buffer
-//  8 struct holding an iterator, a pointer and a self-referencing array
+//
+//	0 iterator from NeoToken.getAllCandidates   1 iterator from Management.getContractHashes   2 Pointer
+//	3 array containing itself   4 map containing itself   5 array nested `size` deep (default 150)
+//	6 Buffer of stackitem.MaxSize - size bytes (its serialisation is just under / over MaxSize)   7 small Buffer
+//	8 struct holding an iterator, a pointer and a self-referencing array
 func (c *c05Chain) c01ArgScript(h util.Uint160, variant, size int, relay bool) []byte {
 	w := io.NewBufBinWriter()
 	b := w.BinWriter
@@ -415,34 +416,34 @@ func c01ApplyOptions(c *config.Blockchain, opts map[string]int64) {
 // ---------- observation of a node at its tip ----------
 
 type c01Obs struct {
-	Height    uint32   `json:"height"`
-	Root      string   `json:"root"`
-	Storage   string   `json:"storage"` // sha256 over the sorted (contract id, key, value) list of all contracts
-	NItems    int      `json:"nitems"`
-	AERs      string   `json:"aers"` // sha256 over the JSON of every execution result of the block
-	Committee []int    `json:"committee"`
-	NextVals  []int    `json:"next_validators"`
-	NewEpoch  []int    `json:"compute_next_validators"`
-	Policy    []int64  `json:"policy"` // feePerByte, baseExecFee, storagePrice, maxTraceable, maxVUBInc, msPerBlock
-	Blocked   []int    `json:"blocked"`
+	Height    uint32  `json:"height"`
+	Root      string  `json:"root"`
+	Storage   string  `json:"storage"` // sha256 over the sorted (contract id, key, value) list of all contracts
+	NItems    int     `json:"nitems"`
+	AERs      string  `json:"aers"` // sha256 over the JSON of every execution result of the block
+	Committee []int   `json:"committee"`
+	NextVals  []int   `json:"next_validators"`
+	NewEpoch  []int   `json:"compute_next_validators"`
+	Policy    []int64 `json:"policy"` // feePerByte, baseExecFee, storagePrice, maxTraceable, maxVUBInc, msPerBlock
+	Blocked   []int   `json:"blocked"`
 	// digests of read-only contract method answers (served from the native caches), by group
-	QPolicy    string `json:"q_policy"`    // Policy.isBlocked of every universe account, fee getters
-	QNeo       string `json:"q_neo"`       // NEO getCommittee, getNextBlockValidators, getCandidates, getGasPerBlock, getRegisterPrice, getCandidateVote
-	QUnclaimed string `json:"q_unclaimed"` // NEO.unclaimedGas of every universe account (reads the gas-per-vote cache)
-	QAccounts  string `json:"q_accounts"`  // NEO.getAccountState of every universe account
-	QNotary    string `json:"q_notary"`    // Notary balanceOf / expirationOf / getMaxNotValidBeforeDelta
-	QWhitelist string `json:"q_whitelist"` // Policy.getWhitelistFeeContracts (Faun): the cached whitelist with its fees
-	Whitelist  []int64 `json:"-"`          // (contract account, fee) pairs of the cached whitelist, for the model
-	QContracts string  `json:"q_contracts"` // Management.getContract of the storage contract of every signing account
-	QRoles     string  `json:"q_roles"`    // RoleManagement.getDesignatedByRole of every role at the tip and at historic heights
-	RoleQ      []c01RoleQ     `json:"-"`
-	ContractQ  []c01ContractQ `json:"-"`   // Management.getContract of the storage contract of every account
-	Enroll    string   `json:"enrollments"`
-	Natives   string   `json:"natives"`
-	Contracts string   `json:"contracts"`
-	Roles     string   `json:"roles"`
-	Err       []string `json:"err,omitempty"`
-	items     map[string][]byte // full contract storage ("id:keyhex" -> value), for the diagnosis of a divergence
+	QPolicy    string            `json:"q_policy"`    // Policy.isBlocked of every universe account, fee getters
+	QNeo       string            `json:"q_neo"`       // NEO getCommittee, getNextBlockValidators, getCandidates, getGasPerBlock, getRegisterPrice, getCandidateVote
+	QUnclaimed string            `json:"q_unclaimed"` // NEO.unclaimedGas of every universe account (reads the gas-per-vote cache)
+	QAccounts  string            `json:"q_accounts"`  // NEO.getAccountState of every universe account
+	QNotary    string            `json:"q_notary"`    // Notary balanceOf / expirationOf / getMaxNotValidBeforeDelta
+	QWhitelist string            `json:"q_whitelist"` // Policy.getWhitelistFeeContracts (Faun): the cached whitelist with its fees
+	Whitelist  []int64           `json:"-"`           // (contract account, fee) pairs of the cached whitelist, for the model
+	QContracts string            `json:"q_contracts"` // Management.getContract of the storage contract of every signing account
+	QRoles     string            `json:"q_roles"`     // RoleManagement.getDesignatedByRole of every role at the tip and at historic heights
+	RoleQ      []c01RoleQ        `json:"-"`
+	ContractQ  []c01ContractQ    `json:"-"` // Management.getContract of the storage contract of every account
+	Enroll     string            `json:"enrollments"`
+	Natives    string            `json:"natives"`
+	Contracts  string            `json:"contracts"`
+	Roles      string            `json:"roles"`
+	Err        []string          `json:"err,omitempty"`
+	items      map[string][]byte // full contract storage ("id:keyhex" -> value), for the diagnosis of a divergence
 }
 
 type c01RoleQ struct {
@@ -1128,7 +1129,7 @@ func c01RandomOp(g *c05Gen, deployed map[int]bool) c05Op {
 	case x < 60:
 		return c05Op{T: pick(r, []string{"block", "block", "unblock"}), To: pick(r, c05Signers[:8])}
 	case x < 64:
-		return c05Op{T: pick(r, []string{"setfpb", "setexec", "setstor"}), A: int64(1 + r.intn(60))*int64(1+r.intn(40))}
+		return c05Op{T: pick(r, []string{"setfpb", "setexec", "setstor"}), A: int64(1+r.intn(60)) * int64(1+r.intn(40))}
 	case x < 66:
 		return c05Op{T: "setattr", N: pick(r, []int{1, 0x11, 0x20, 0x21, 0x22}), A: int64(r.intn(5000_0000))}
 	case x < 68:
@@ -1233,7 +1234,7 @@ func c01Generate(r *rng, c *c05Chain, run *c05Runner, nblocks int) ([]c05Op, err
 		}
 		return l
 	}
-	quietUntil := 0 // blocks up to this height carry no operation that moves NEO or touches candidates
+	quietUntil := 0     // blocks up to this height carry no operation that moves NEO or touches candidates
 	var later [][]c05Op // scripted continuations: later[i] goes into the i-th next block
 	for b := 0; b < nblocks; b++ {
 		h := int(c.bc.BlockHeight()) + 1 // the block being filled
@@ -1567,7 +1568,8 @@ func runC01(args []string) error {
 	fs.Parse(args)
 	co := newCaseOut(cf.out, "Harness.C01", "Z",
 		"random block histories on a source node (C05 token/governance mix with candidates voted into the committee, Policy block/unblock and fee changes, "+
-			"role designation, deploy/update/destroy of a storage contract, storage-heavy and faulting invocations), replayed on replicas differing in "+
+			"designations of several roles across blocks (answered at historic heights), deploy/update/whitelist/destroy/redeploy lives of storage contracts, "+
+			"NotaryAssisted transactions, storage-heavy and faulting invocations), replayed on replicas differing in "+
 			"backend (memory/LevelDB/BoltDB), flush points, KeepOnlyLatestState, RemoveUntraceableBlocks+GC, SkipBlockVerification, VerifyTransactions, mempool junk "+
 			"and restart heights (one replica per restart height on chains up to 40 blocks); one case = one history, compared at every height on every replica; "+
 			"non-trivial = the committee changed and a Policy block/unblock succeeded; distinct by Coq term")
